@@ -55,6 +55,7 @@ class RenderContext:
 
     __slots__ = (
         "_copy_depth",
+        "_isolated_globals",
         "autoescape",
         "counters",
         "disabled_tags",
@@ -91,6 +92,11 @@ class RenderContext:
         # A read-only namespace containing globally available variables. Usually
         # passed down from the environment.
         self.globals: Mapping[str, object] = globals if globals is not None else {}
+
+        # The global data an isolated copy of this context starts from. For a block
+        # scoped copy this is inherited from the parent context, as that copy's
+        # `globals` include the parent's local variables.
+        self._isolated_globals: Mapping[str, object] = self.globals
 
         # A namespace for `increment` and `decrement` counters.
         self.counters: dict[str, int] = {}
@@ -464,10 +470,11 @@ class RenderContext:
             # This might need to be generalized so the caller can specify which
             # tag namespaces need to be copied.
             ctx.tag_namespace["extends"] = self.tag_namespace["extends"]
+            ctx._isolated_globals = self._isolated_globals
         else:
             ctx = self.__class__(
                 template or self.template,
-                globals=ReadOnlyChainMap(namespace, self.globals),
+                globals=ReadOnlyChainMap(namespace, self._isolated_globals),
                 disabled_tags=disabled_tags,
                 copy_depth=self._copy_depth + 1,
                 parent_context=self,
